@@ -556,8 +556,17 @@ pub fn run_c12(ctx: &mut Ctx) {
         let mut failed = false;
         for _ in 0..20 { let o = ex(&mut log, &mut im, &format!("a.wpoll 0 {}", hexd(&data))); if o.starts_with("err") { failed = true; break; } if o.starts_with("panic") { or.fail("poll_write panicked".into(), log.replay_block(), "C12:writer-panic".into()); break; } if o.starts_with("ready") { break; } }
         if failed {
-            let after: &[&str] = match rng.below(3) { 0 => &["a.cpoll 0"], 1 => &["a.clone 0", "a.cpoll 1", "a.cpoll 0"], _ => &["a.cpoll 0", "a.drop 0"] };
-            for op in after { let o = ex(&mut log, &mut im, op); if o.starts_with("panic") { or.fail(format!("after a failed write of the transport, `{op}` panicked"), log.replay_block(), "C12:panic-after-write-fault".into()); } }
+            let other = if t == 6 { 7 } else { 6 };
+            let retry = format!("a.wpoll 0 {}", hexd(&data)); let sib_open = format!("a.open {other}"); let sl = 1 + rng.usize_below(9); let sib = format!("a.wpoll 1 {}", hexd(&rng.bytes(sl)));
+            // ... nor may a retry of the same write (the write_all idiom on a transient error), and a SIBLING writer of the request polled
+            // while the failed writer is still alive must not get anything onto the transport (the record of the failed writer is unfinished)
+            let after: Vec<&str> = match rng.below(5) { 0 => vec!["a.cpoll 0"], 1 => vec!["a.clone 0", "a.cpoll 1", "a.cpoll 0"], 2 => vec!["a.cpoll 0", "a.drop 0"],
+                                                        3 => vec![&retry, &retry], _ => vec![&sib_open, &sib, &sib] };
+            for op in after {
+                let o = ex(&mut log, &mut im, op);
+                if o.starts_with("panic") { or.fail(format!("after a failed write of the transport, `{}` panicked", op.split(' ').take(2).collect::<Vec<_>>().join(" ")), log.replay_block(), "C12:panic-after-write-fault".into()); }
+                if op.starts_with("a.wpoll 1") && !o.ends_with("wd=-") { or.fail("bytes of another writer reached the transport after a failed write inside an unfinished record".into(), log.replay_block(), "C12:written-after-failed-write".into()); }
+            }
             or.count("writer_level_write_faults");
         }
         or.eval((ci, "w"), true);
